@@ -19,13 +19,16 @@ NP_KERNELS = [
     dict(name="SG_bit_to_int", file=T, cls="SamplingGrid", func="bit_to_int", params=[("bit_array", "Mat"), ("powers", "OptVec")], ret="Vec"),
     dict(name="GC_gray_to_bit", file=T, cls="GrayCode", func="gray_to_bit", params=[("gray_array", "Mat")], ret="Mat"),
     dict(name="GC_bit_to_gray", file=T, cls="GrayCode", func="bit_to_gray", params=[("bit_array", "Mat")], ret="Mat"),
+    dict(name="SG_int_to_bit", file=T, cls="SamplingGrid", func="int_to_bit", params=[("int_array", "Vec"), ("powers", "OptVec"), ("num_bits", "OptNat")], ret="Mat",
+         # the width derived from the batch maximum (float log2) is a function parameter; which expression it is, is checked
+         opaque_defaults={"num_bits": ("int(np.ceil(np.log2(np.max(int_array) + 1)))", "widthOf int_array")}, fn_params=["(widthOf : List Int → Nat)"]),
     dict(name="SG_decode", file=T, cls="SamplingGrid", func="_decode", params=[("bit_array_i", "Mat")], self_attrs=[("_powers", "Vec")], ret="Vec",
          calls={"bit_to_int": ("SG_bit_to_int", ["Mat", "OptVec"], "Vec")}),
     dict(name="GC_decode", file=T, cls="GrayCode", func="_decode", params=[("gray_array_i", "Mat")], self_attrs=[("_powers", "Vec")], ret="Vec",
          calls={"bit_to_int": ("SG_bit_to_int", ["Mat", "OptVec"], "Vec"), "gray_to_bit": ("GC_gray_to_bit", ["Mat"], "Mat")}),
 ]
 
-LEAN_TY = {"Mat": "Np.Mat", "Vec": "List Int", "OptVec": "Option (List Int)", "Nat": "Nat"}
+LEAN_TY = {"Mat": "Np.Mat", "Vec": "List Int", "OptVec": "Option (List Int)", "Nat": "Nat", "OptNat": "Option Nat"}
 
 
 class NotRecognised(Exception):
@@ -97,6 +100,25 @@ class Tr:
             if ty != "Mat":
                 raise NotRecognised("shape[1] of a non-matrix")
             return f"{x}.ncols", "Nat"
+        # v.shape[0]
+        if isinstance(e, ast.Subscript) and isinstance(e.value, ast.Attribute) and e.value.attr == "shape" and is_const(e.slice, 0):
+            x, ty = self.E(e.value.value)
+            if ty != "Vec":
+                raise NotRecognised("shape[0] of a non-vector")
+            return f"{x}.length", "Nat"
+        # np.empty(shape=(r, c), dtype=np.int8)
+        if isinstance(e, ast.Call) and is_np(e.func, "empty") and not e.args and sorted(k.arg for k in e.keywords) == ["dtype", "shape"]:
+            kw = {k.arg: k.value for k in e.keywords}
+            if not int_dtype(kw["dtype"]) or not (isinstance(kw["shape"], ast.Tuple) and len(kw["shape"].elts) == 2):
+                raise NotRecognised("np.empty arguments")
+            (r, tr), (c, tc) = self.E(kw["shape"].elts[0]), self.E(kw["shape"].elts[1])
+            if (tr, tc) != ("Nat", "Nat"):
+                raise NotRecognised("np.empty shape kinds")
+            return f"(Np.empty ({r}) ({c}))", "Mat"
+        # v.astype(np.int64) of an integer-valued vector
+        if isinstance(e, ast.Call) and isinstance(e.func, ast.Attribute) and e.func.attr == "astype" and len(e.args) == 1 and int_dtype(e.args[0]) \
+                and isinstance(e.func.value, ast.Name) and self.env.get(e.func.value.id) == "Vec":
+            return e.func.value.id, "Vec"
         # 2 ** np.arange(n, dtype=np.int64)
         if isinstance(e, ast.BinOp) and isinstance(e.op, ast.Pow) and is_const(e.left, 2) and isinstance(e.right, ast.Call) and is_np(e.right.func, "arange"):
             c = e.right
@@ -205,6 +227,35 @@ class Tr:
             self.lines.append(f"  let {p} := match {p} with | some v => v | none => {x}")
             self.env[p] = "Vec"
             return
+        # if n is None: n = <the configured opaque default>  else: n = int(n)
+        if isinstance(st, ast.If) and len(st.orelse) == 1 and len(st.body) == 1 and isinstance(st.test, ast.Compare) and isinstance(st.test.left, ast.Name) \
+                and len(st.test.ops) == 1 and isinstance(st.test.ops[0], ast.Is) and is_const(st.test.comparators[0], None) \
+                and st.test.left.id in self.cfg.get("opaque_defaults", {}):
+            p = st.test.left.id
+            text, lean = self.cfg["opaque_defaults"][p]
+            if self.env.get(p) != "OptNat" or ast.unparse(st.body[0]) != f"{p} = {text}" or ast.unparse(st.orelse[0]) != f"{p} = int({p})":
+                raise NotRecognised("the default of " + p)
+            self.lines.append(f"  let {p} := match {p} with | some n => n | none => {lean}")
+            self.env[p] = "Nat"
+            return
+        # for i, p in enumerate(V): M[:, i] = np.int8((X & p) > 0)
+        if isinstance(st, ast.For) and not st.orelse and isinstance(st.target, ast.Tuple) and len(st.target.elts) == 2 \
+                and all(isinstance(t, ast.Name) for t in st.target.elts) and isinstance(st.iter, ast.Call) and isinstance(st.iter.func, ast.Name) \
+                and st.iter.func.id == "enumerate" and len(st.iter.args) == 1 and not st.iter.keywords and len(st.body) == 1:
+            i, pw = st.target.elts[0].id, st.target.elts[1].id
+            v, tv = self.E(st.iter.args[0])
+            b = st.body[0]
+            if tv == "Vec" and isinstance(b, ast.Assign) and len(b.targets) == 1:
+                tgt = b.targets[0]
+                if isinstance(tgt, ast.Subscript) and isinstance(tgt.value, ast.Name) and self.env.get(tgt.value.id) == "Mat" \
+                        and ast.unparse(tgt.slice) in (f":, {i}", f"(:, {i})"):
+                    m = tgt.value.id
+                    for x, tx in self.env.items():
+                        if tx == "Vec" and ast.unparse(b.value) == f"np.int8({x} & {pw} > 0)":
+                            t = self.bind(f"Np.assignAndPosCols {m} {x} {v}", "Mat", True)
+                            self.lines.append(f"  let {m} := {t}")
+                            return
+            raise NotRecognised("loop body " + ast.unparse(b)[:60])
         raise NotRecognised("statement " + ast.unparse(st)[:60])
 
     def render(self):
@@ -224,7 +275,7 @@ class Tr:
             raise NotRecognised(f"returned kind {ty}")
         self.lines.append(f"  return {x}")
         imports = ["import TFV.Model.Np"] + [f"import TFV.Generated.Src.{v[0]}" for v in cfg.get("calls", {}).values()]
-        params = [f"(self{a} : {LEAN_TY[ty]})" for a, ty in cfg.get("self_attrs", [])] + [f"({p} : {LEAN_TY[ty]})" for p, ty in cfg["params"]]
+        params = cfg.get("fn_params", []) + [f"(self{a} : {LEAN_TY[ty]})" for a, ty in cfg.get("self_attrs", [])] + [f"({p} : {LEAN_TY[ty]})" for p, ty in cfg["params"]]
         return ("/- GENERATED by harness/extract/np2lean.py from src/thefittest/" + cfg["file"] + f" ({cfg['cls']}.{cfg['func']}) — do not edit -/\n"
                 + "\n".join(sorted(set(imports))) + "\nnamespace TFV.Generated.Src\nopen TFV\n\n"
                 + f"def {cfg['name']} " + " ".join(params) + f" : Option ({LEAN_TY[cfg['ret']]}) := do\n" + "\n".join(self.lines) + "\n\nend TFV.Generated.Src\n")
